@@ -204,13 +204,16 @@ def Outcome.ofOption : Option Int → Outcome
 
 def intCmp (a b : Int) : Ordering := if a < b then .lt else if a = b then .eq else .gt
 
+/-- `10^n` (the value `I192::TEN.pow(n)` has when it does not overflow) -/
+def pow10 (n : Nat) : Int := (10 : Int) ^ n
+
 /-- `checked_round(decimal_places, mode)`; `places` is the `i32` after `.into()`. -/
 def checkedRound (t : Ty) (places : Int) (mode : Mode) (x : Int) : Outcome :=
   -- assert!(decimal_places <= SCALE); assert!(decimal_places >= 0);
   if places > (t.scale : Int) ∨ places < 0 then .panic else
   let n : Nat := t.scale - places.toNat
   -- `TEN.pow(n)` = `checked_pow(n).expect("Overflow")`
-  match chk t.bits ((10 : Int) ^ n) with
+  match chk t.bits (pow10 n) with
   | Option.none => .panic
   | some divisor =>
     if divisor = 0 then .panic else  -- `%` by zero panics
